@@ -320,6 +320,22 @@ def postOf (p : String) (r : Resp) : Option (List (String × Val)) :=
       | none => none
       | some m => (getKey key m).map fun x => [(v, x)]
     | _ => some []
+  | some 'J' =>
+    -- one var/jsonpath extractor with several mapping entries: every path must resolve, otherwise the step fails
+    match r.json with
+    | none => none
+    | some m =>
+      mapMOpt (fun (e : String) => match e.splitOn "=" with
+        | [v, key] => (getKey key m).map fun x => (v, x)
+        | _ => none) (body.splitOn "&")
+  | some 'H' =>
+    -- one var/header extractor with several mapping entries
+    let entries := (body.splitOn "&").filterMap fun e => match e.splitOn "=" with
+      | [v, spec] => some (v, (String.intercalate "|" (spec.splitOn "/")).toList)
+      | _ => none
+    match varHeader entries (viewOf r) with
+    | .ok vs => some vs
+    | .error _ => none
   | some 'h' =>
     -- h<var>=<Header>/<modifier>/… : the mapping value is `Header|modifier|…`
     match body.splitOn "=" with
